@@ -61,11 +61,6 @@ when the implementation reports the lower bound. -/
 def dropDeadKeys (d : DS) (g : G) : G :=
   { g with s := { g.s with requests := g.s.requests.filter fun (_, rs) => rs.any fun r => !cancelClosed d r.id } }
 
-def okG (d : DS) (o : Outcome G) : Option G :=
-  match o with
-  | .ok g' => some g'
-  | _ => none
-
 def showOutcome : Outcome G → String
   | .ok _ => "ok"
   | .panic m => s!"panic:{m}"
